@@ -213,6 +213,21 @@ pub fn c01h_doy(i: &mut In, _p: &[i64]) {
   witness!(k > 300, "late in the year");
 }
 
+/// 01.h1'  day of year against the reference calendar itself (get_julian_day = refcal ordinal - 0.5, proved by 01.c):
+/// catches re-implementations of the day of year that do not go through the day count.  p = [ylo, yhi]
+pub fn c01h_doy_cal(i: &mut In, p: &[i64]) {
+  let (y, m, d) = (i.int(p[0], p[1]), i.int(1, 12), i.int(1, 31));
+  i.assume(valid(y, m, d));
+  let k = sd(y, m, d).get_index_in_year() as i64;
+  // position in the year from the month lengths
+  let mut exp = pos_in_month(y, m, d) - 1;
+  let mut mm = 1;
+  while mm < 12 { if mm < m { exp += days_in_month(y, mm); } mm += 1; }
+  assert!(k == exp);
+  witness!(y == 1582 && m == 10 && d == 20, "after the gap");
+  witness!(m == 12 && d == 31, "last day of a year");
+}
+
 /// 01.h2  refcal consistency: the month lengths of a year add up to the year length; ordinals of Jan 1 of
 /// successive years differ by it.  p = []
 pub fn c01h_year_sum(i: &mut In, _p: &[i64]) {
@@ -252,6 +267,7 @@ pub fn registry() -> Vec<(&'static str, Body)> {
     ("c01::c01f_subtract", c01f_subtract),
     ("c01::c01c_ord", c01c_ord),
     ("c01::c01h_doy", c01h_doy),
+    ("c01::c01h_doy_cal", c01h_doy_cal),
     ("c01::c01g_next_exact", c01g_next_exact),
     ("c01::c01g_next", c01g_next),
     ("c01::c01h_lengths", c01h_lengths),
